@@ -58,6 +58,7 @@ type sched struct {
 	panics   []string
 	watchdog bool
 	last     *task
+	running  *task // the task released alone (spawns only happen in such segments)
 }
 
 // cur is the scheduler of the case in progress. Stragglers of earlier cases
@@ -93,6 +94,11 @@ func (hooks) Spawn(p *process.Process, re *process.RuntimeEnvironment, run func(
 		defer s.exit(t)
 		run()
 	}()
+	// the spawning process is rescheduled here: the child may run before the rest of the
+	// parent's transition (no happens-before edge orders the two beyond the go statement)
+	if par := s.running; par != nil {
+		park(par.proc, 1, 0, nil, nil, nil)
+	}
 }
 
 //go:norace
@@ -276,6 +282,10 @@ func (s *sched) run(maxSteps int) bool {
 		}
 		c := en[idx]
 		s.last = c.a
+		s.running = nil
+		if c.b == nil {
+			s.running = c.a
+		}
 		c.a.state = 0
 		if c.b != nil {
 			c.b.state = 0
